@@ -4,9 +4,9 @@
    character classes in 7 position kinds (input file name, -o value, -soname=<text>, -soname <text>,
    -L directory, response-file input name, response-file option text).  For each the spec says whether
    the words bash / wild's response-file lexer form from what save_dir.rs writes are the original
-   arguments (RoundTrip), which class is to blame, and that a candidate quoting round-trips every
-   text (invariant FixAlwaysRoundTrips).  The property as a claim about wild's quoting
-   (SaveDir_claim.cfg) must be violated in the model (anti-vacuity).
+   arguments: RoundTrip is an INVARIANT of the quoting coded today (RoundTripHolds).  The quoting wild
+   had before the fix is kept as the broken variant: TLC must reject it (SaveDir_oldquoting.cfg,
+   anti-vacuity) and the class it blames per text is the key a regression would be reported under.
 2. The bash model is pinned against the real bash: the script text of every exported shell case is
    given to /bin/bash in a directory laid out as the model assumes; the words must agree.
 3. Binding R: exported cases (all single-character texts first, then seeded random order, within a time
@@ -45,7 +45,7 @@ GROUP = {"file": "unescaped-path", "libdir": "unescaped-path", "opteq": "unescap
          "rspfile": "rsp-unescaped", "rspopt": "rsp-unescaped", "out": "out"}
 SHELL_KINDS = ("file", "out", "opteq", "optsep", "libdir")
 # number of leading tokens of `mid` that are the fixed (non-text) part, per kind
-FIXED = {"file": 5, "libdir": 7, "opteq": 3, "optsep": 7, "rspfile": 5, "rspopt": 3}
+FIXED = {"file": 8, "libdir": 10, "opteq": 4, "optsep": 9, "rspfile": 7, "rspopt": 3, "out": 9}
 
 
 def txt(tokens):
@@ -56,9 +56,11 @@ def txt(tokens):
 # 2. pinning the bash model
 
 
-def pin_bash(rec, d):
-    """Run the model's script text through the real bash in the file layout the model assumes.
-    Returns None if bash agrees with the model, else a description."""
+def pin_bash(rec, d, old=False):
+    """Run the model's script text (as coded, or the old quoting's) through the real bash in the file layout
+    the model assumes. Returns None if bash agrees with the model, else a description."""
+    if old:
+        rec = dict(rec, script=rec["old_script"], words=rec["old_words"], why=rec["old_why"], rt=rec["old_rt"])
     d.mkdir()
     cwd = d / "cwd"
     cwd.mkdir()
@@ -177,15 +179,17 @@ def real_case(rec, d, seeds, wild):
     if kind in FIXED:
         tail = txt(rec["mid"][FIXED[kind]:])
         rel = str(d / "in").lstrip("/")
-        fixed = {"file": f"$D/{rel}/", "rspfile": f"$D/{rel}/", "libdir": f"-L$D/{rel}/",
-                 "opteq": "-soname=", "rspopt": "-soname=", "optsep": "-soname \\\n  "}[kind]
+        fixed = {"file": f"\"$D\"/'{rel}/", "rspfile": f"\"$D\"/{rel}/", "libdir": f"-L\"$D\"/'{rel}/",
+                 "opteq": "'-soname=", "rspopt": "-soname=", "optsep": "'-soname' \\\n  ",
+                 "out": "-o \"$OUT\""}[kind]
         where = sd / ("run-with" if kind in SHELL_KINDS else "at-0.txt")
         try:
             body = where.read_bytes().decode("utf-8", "replace")
         except OSError:
             body = ""
         sep = " \\\n  " if kind in SHELL_KINDS else "\n"
-        transcription_ok = (sep + fixed + tail + (sep if kind in SHELL_KINDS else "\n")) in body + "\n"
+        end = "\n" if kind == "out" or kind not in SHELL_KINDS else sep      # `-o "$OUT"` is the last argument
+        transcription_ok = (sep + fixed + tail + end) in body + "\n"
     cwd = d / "cwd"
     cwd.mkdir()
     (cwd / "a").write_text("junk\n")
@@ -273,9 +277,14 @@ def run_structural(name, cwd, args, wild):
 
 
 def key_of(rec):
-    if rec["rt"]:
-        return "unpredicted:" + rec["kind"] + ":" + "+".join(rec["text"])
-    return f"{GROUP[rec['kind']]}:{rec['blame']}"
+    """Key of a failing real replay: the class the model blames under the quoting coded today, else the
+    class it blames under the old quoting (a regression to the old behaviour gets the old keys), else the
+    text itself."""
+    if not rec["rt"]:
+        return f"{GROUP[rec['kind']]}:{rec['blame']}"
+    if not rec["old_rt"]:
+        return f"{GROUP[rec['kind']]}:{rec['old_blame']}"
+    return "unpredicted:" + rec["kind"] + ":" + "+".join(rec["text"])
 
 
 def run(ctx):
@@ -289,20 +298,17 @@ def run(ctx):
     recs = r.records
     if len(recs) != r.distinct or not recs:
         raise ToolError(f"exported {len(recs)} cases but TLC found {r.distinct} states")
-    claim = tlc.run_tlc("SaveDir", "mc/SaveDir_claim.cfg", workers=2, timeout=300, coverage=False)
-    if claim.ok or claim.violated != "WildRoundTrips":
-        # the model says wild's quoting is fine for every text: then the enumeration below still
-        # replays everything, but the anti-vacuity demonstration is gone
-        log("note: WildRoundTrips was not violated in the model (quoting fixed in the transcription?)")
+    old = tlc.run_tlc("SaveDir", "mc/SaveDir_oldquoting.cfg", workers=2, timeout=300, coverage=False)
+    if old.ok or old.violated != "OldRoundTrips":
+        raise ToolError("anti-vacuity: the old (insufficient) quoting was not rejected by the model")
     cov["states"] = r.distinct
     cov["transitions"] = r.generated
     cov["tlc_runs"] = [{"cfg": cfg, **r.summary()},
-                       {"cfg": "mc/SaveDir_claim.cfg", "expected_violation": claim.violated}]
-    n_bad_model = sum(1 for x in recs if not x["rt"])
-    cov["model_non_roundtrip"] = n_bad_model
-    cov["model_fix_roundtrips_all"] = all(x["fix_rt"] for x in recs)
-    if not cov["model_fix_roundtrips_all"]:
-        raise ToolError("FixAlwaysRoundTrips passed but a record has fix_rt = false")
+                       {"cfg": "mc/SaveDir_oldquoting.cfg", "expected_violation": old.violated}]
+    if not all(x["rt"] for x in recs):
+        raise ToolError("RoundTripHolds passed but a record has rt = false")
+    cov["model_roundtrips_all"] = True
+    cov["old_quoting_non_roundtrip"] = sum(1 for x in recs if not x["old_rt"])
 
     # order of the cases: all single-character texts first, then the rest in seeded random order;
     # as many as fit in the time budget are pinned against bash / replayed for real
@@ -319,7 +325,11 @@ def run(ctx):
 
         def pin(ix):
             i, x = ix
-            return x, pin_bash(x, d / f"p{i}")
+            m = pin_bash(x, d / f"p{i}")
+            if m:
+                return x, m
+            m = pin_bash(x, d / f"q{i}", old=True)
+            return x, ("old quoting: " + m) if m else None
 
         pins = []
         t0 = time.time()
@@ -329,7 +339,7 @@ def run(ctx):
                 if time.time() - t0 > pin_budget and lo + 128 >= len(first):
                     break
         bad = [(x, m) for x, m in pins if m]
-        cov["bash_model_cases_pinned"] = len(pins)
+        cov["bash_model_cases_pinned"] = 2 * len(pins)      # script as coded + old quoting's script
         if bad:
             msg = "\n".join(f"  {x['kind']} {x['text']}: {m}" for x, m in bad[:15])
             raise ToolError(f"the bash model disagrees with /bin/bash on {len(bad)} of {len(pins)} texts:\n{msg}")
